@@ -98,9 +98,6 @@ func runLimitsMode() {
 		}
 		if r.Chance(1, 3) {
 			o.flags = pkg.FrameFlags(r.Intn(8))
-			if !o.zstd {
-				o.flags &^= pkg.RestartCompression
-			}
 		}
 		cfg := &recgen.Cfg{NoBigLens: r.Chance(2, 3), MaxCalls: 20, DictHeavy: true, NoFrozen: r.Chance(1, 2), DictResets: true}
 		p := genParams{writes: 4 + r.Intn(25), maxMut: 2, flushProb: r.Intn(4)}
